@@ -154,6 +154,15 @@ class C20(Lab):
                 for mk in (lambda: iter(d), lambda: (x for x in d), lambda: map(int, d), lambda: reversed(bytes(reversed(d)))):
                     if self.call(mk()) != want:
                         raise Violation("C20/value-one-shot-iterable", f"crc7(<one-shot iterable over {d.hex()}>) = {self.call(mk())}, bit-serial {want}")
+            # an iterable that computes another checksum while it is being consumed (nested / overlapping calls)
+            if 2 <= len(d) <= 64:
+                def nested():
+                    for j, x in enumerate(d):
+                        if j == len(d) // 2:
+                            self.crc7(b"\x01\x02\x03")
+                        yield x
+                if self.call(nested()) != want:
+                    raise Violation("C20/value-overlapping-calls", f"crc7 over an iterable that calls crc7 itself: {self.call(nested())}, bit-serial {want} for {d.hex()}")
             # a call that fails part-way (an element that is no byte) must not leave anything behind
             if 1 <= len(d) <= 32:
                 for bad in (list(d) + [256], list(d) + [-1000], list(d) + ["x"]):
